@@ -56,6 +56,12 @@ def run(ctx):
                     "capabilities": {"from": {"engine": "opa", "version": v}}}
             vcases.append({"id": len(vcases), "op": "kernel.lint", "files": files, "user": user, "params": kernel.gen_params(rng, 1.0),
                            "prefix": "", "collect": False, "export": False, "all": True, "_v": v, "_n": nfiles})
+            if nfiles == 1:
+                # the same target named as a capabilities FILE (the version's original document): must gate identically
+                fuser = {"rules": user["rules"]}
+                vcases.append({"id": len(vcases), "op": "kernel.lint", "files": files, "user": fuser, "capsFileOfVersion": v,
+                               "params": kernel.gen_params(rng, 1.0), "prefix": "", "collect": False, "export": False,
+                               "all": True, "_v": v, "_n": "file"})
     vres = ctx.impl(vcases, timeout=3000)
     # what each version provides, read with OPA's loader, and what the model says must be skipped for it
     vlist = list(dict.fromkeys(pick))
@@ -107,6 +113,9 @@ def run(ctx):
         if notices:
             ctx.sample({"version": c["_v"], "files": c["_n"], "notices": notices[:5], "rulesSkipped": io["summary"]["rulesSkipped"]}, limit=4)
     for v, d in byv.items():
+        if 1 in d and "file" in d and d[1] != d["file"]:
+            ctx.fail("the same target gates differently when given as embedded version and as capabilities file",
+                     {"version": v}, None, {"engine_version": d[1], "from_file": d["file"]})
         if 1 in d and 3 in d and d[1] != d[3]:
             ctx.fail("skipped rules differ between one file and many", {"version": v}, None, {"one": d[1], "many": d[3]})
     # (3) capability resolution (from \ minus) ∪ plus through config unmarshalling vs Caps.resolve
